@@ -124,13 +124,15 @@ Proof.
   - pose proof (nostarslash_stay c10_lex_kt 0 _ (dotted_nostarslash _ Hv)) as H2. intros st. walk. reflexivity.
 Qed.
 
-(* one line `import <package>.<crate>.<A>` per imported name, then an empty line: neutral tokens only *)
+(* one line `import <package>.<crate>.<prefix><A>` per imported name (the prefix since fix 26 of /repo; its characters
+   are identifier characters by c10_kt_cfg_ok), then an empty line: neutral tokens only *)
 Lemma kt_write_imports_bal im : c10_imports_ok im = true -> bal c10_lex_kt (kt_write_imports cfg im).
 Proof.
   intros Him. unfold kt_write_imports. destruct kt_cfg_parts as [_ Hp]. apply (tr_app _ _ _ C10LCode); [|intros st; reflexivity].
   apply tr_flat_map. apply Forall_forall. intros kv Hin. destruct (imports_ok_entry _ _ Him Hin) as [Hc Hn].
   destruct kv as [c ns]. cbn [fst snd] in *. apply tr_flat_map. apply Forall_forall. intros t Ht. rewrite forallb_forall in Hn.
-  apply tok_bal. rewrite !tok_ok_app, (dotted_tok _ Hp), (crate_tok _ Hc), (ident_tok _ (Hn t Ht)). reflexivity.
+  apply tok_bal. rewrite !tok_ok_app, (dotted_tok _ Hp), (crate_tok _ Hc), (ident_tok _ (Hn t Ht)),
+    (Proofs.C10_TSFile.ident_chars_tok _ (Proofs.C10_KT.kt_prefix_chars cfg Hcfg)). reflexivity.
 Qed.
 
 Theorem kt_generate_multi_balanced c im pd text :
